@@ -64,7 +64,7 @@ func (e *Engine) calleesOf(c ssa.CallInstruction) []*ssa.Function {
 var creditNames = []string{"SendCoinsFromModuleToAccount", "MintCoins", "SendCoins"}
 
 func runC05(e *Engine, r *Report, tier string) {
-	r.Explanation = "C05, structural clauses. Decided: R1 sequence counters (0x25…) are written only by the read/+1/write/return-old routine and every record id comes from it; R2 the batch builder removes each selected transfer from the pool (0x18) on every path after selecting it and verifies absence, batch cancel re-adds the batch's own transfers unchanged and deletes the batch (0x20,0x21) on the success path, the executed-batch handler deletes batch and confirmations and never re-adds its transfers; R3 refunds are paired with the deletion of the record on the same success path (pool: delete dominates the refund; bridge call: refund is followed by the delete on every success path and is conditional on failure/timeout); R4 the stored sender must equal the caller-supplied sender before delete and refund, and the refund goes to that sender; R5 a fee increase re-keys the same transfer (delete old key, then set) with fee += the debited amount; R6 record fields come from the creator's parameters. Not decided: multi-step histories, amounts inside bank/EVM."
+	r.Explanation = "C05, structural clauses. Decided: R1 sequence counters (0x25…) are written only by the read/+1/write/return-old routine and every record id comes from it; R2 the batch builder removes each selected transfer from the pool (0x18) on every path after selecting it and verifies absence, batch cancel re-adds the batch's own transfers unchanged and deletes the batch (0x20,0x21) on the success path, the executed-batch handler deletes batch and confirmations and never re-adds its transfers; R3 refunds are paired with the deletion of the record on the same success path (pool: delete dominates the refund; bridge call: refund is followed by the delete on every success path and is conditional on failure/timeout); R4 the stored sender must equal the caller-supplied sender before delete and refund, and the refund goes to that sender; R5 a fee increase re-keys the same transfer (delete old key, then set) with fee += the debited amount; R6 record fields come from the creator's parameters; R8 an observed (parked) execution result excludes the timeout refund (C06.R7). Not decided: multi-step histories, amounts inside bank/EVM."
 	r.Rule("R1", "ids come from the auto-increment routine; counters written nowhere else", 4, "writers of crosschain:25* + Id/BatchNonce/Nonce stores")
 	r.Rule("R2", "pool XOR batch: picked txs removed+verified; cancel re-adds unchanged and deletes batch; executed deletes batch+confirms", 4, "functions writing 0x18/0x20")
 	r.Rule("R3", "refund paired with record deletion on the same success path; conditional on failure or timeout", 3, "refund call sites")
@@ -886,6 +886,18 @@ func runC05(e *Engine, r *Report, tier string) {
 			}
 		}
 		r.Check(okTok, "R5", ck+" same-token", e.InstrPos(set), "record.Fee.Contract == contract of the paid denom (else error) dominates the re-add", "the fee can be raised with a coin of a different token than the transfer's fee token: the payer is debited one token and the fee grows in another")
+	}
+
+	// ---------- R8: an observed execution excludes the timeout refund (decided as C06.R7) ----------
+	r.Rule("R8", "a record whose observed result is parked is not refunded for timeout (C06.R7)", 1, "C06 obligations")
+	{
+		sub06 := NewReport("C06", "other")
+		runC06(e, sub06, tier)
+		for _, o := range sub06.Obls {
+			if o.Rule == "R7" {
+				r.add("R8", "C06.R7 "+o.Construct, o.Status, o.Pos, o.Detail)
+			}
+		}
 	}
 
 	// ---------- R6 record field provenance ----------
